@@ -39,6 +39,7 @@ RULE_TEXT = (
     'injected failure. Non-trivial = both databases executed evolution SQL '
     'or a fault fired; distinct = digest of split + mutation kinds + order.')
 RULE_TEXT += ' 1 in 8 scenarios ship the evolution as raw SQL files per database (evolutions/<alias>_<label>.sql).'
+RULE_TEXT += ' Every third project uses a router that only decides allow_migrate().'
 ASSUMPTIONS = [
     'models unknown to the router (contenttypes, django_evolution) are '
     'allowed on both databases, as with any Django router returning None',
@@ -47,6 +48,14 @@ ASSUMPTIONS = [
 
 
 def generate(seed, index, tier):
+    scn = _generate(seed, index, tier)
+    # every third project uses a router that only has an opinion about
+    # allow_migrate(): reads and writes fall back to the default database
+    scn['project']['router_migrate_only'] = index % 3 == 1
+    return scn
+
+
+def _generate(seed, index, tier):
     rng = scenarios.derive_rng(seed, ID, index)
     if index % 8 == 7:
         return _gen_sqlfile(rng)
@@ -231,7 +240,9 @@ def execute(scn):
     feats = history.features(P['apps']['va']['steps'][0]['evos'][0]
                              ['mutations'])
     detail = dict(ops=tags, ops_str=' '.join(tags), simple=scn['simple'],
-                  order=scn['order'], **feats)
+                  order=scn['order'],
+                  router_migrate_only=bool(P.get('router_migrate_only')),
+                  **feats)
     res = {'violations': viols, 'stats': stats, 'nontrivial': False,
            'shape': spec.canon([sorted(side.items()), tags, scn['order'],
                                 bool(scn.get('fault'))]), 'runs': 0}
